@@ -478,9 +478,19 @@ def _strip_nulls(x):
     return x
 
 
+def _strip_empty(x):
+    if isinstance(x, dict):
+        y = {k: _strip_empty(v) for k, v in x.items()}
+        return {k: v for k, v in y.items() if v is not None and v != [] and v != {}}
+    if isinstance(x, list):
+        return [_strip_empty(v) for v in x]
+    return x
+
+
 def canon_doc(doc):
-    """canonical form of a Doc JSON (model layout): what the property pins and nothing else"""
-    d = _strip_nulls(doc)
+    """canonical form of a Doc JSON (model layout): what the property pins and nothing else
+    (absent and empty optional lists are not distinguished: representation, not content)"""
+    d = _strip_empty(doc)
     tags = d.get("tags") or []
     order = sorted(range(len(tags)), key=lambda i: (tags[i]["key"], tags[i]["value"], i))
     remap = {}
@@ -532,3 +542,55 @@ def diff(a, b, path=""):
                 return r
         return None
     return None if a == b else f"{path}: {json.dumps(a)[:120]} != {json.dumps(b)[:120]}"
+
+
+# ----------------------------------------------------------------------------- Doc JSON (model layout) -> AOEF file
+def _undict(d):
+    return None if d is None else {e["key"]: float(e["value"]) for e in d}
+
+
+def _fl(x):
+    return None if x is None else float(x)
+
+
+def model_to_doc(m):
+    """inverse of `doc_to_model`: the `data` member of an AOEF file (plain JSON, nulls dropped)"""
+    g = m.get
+    out = {"collection_type": m["collection_type"], "uuid": m["uuid"], "created_on": g("created_on")}
+
+    def each(key, f):
+        if g(key) is not None:
+            out[key] = [f(x) for x in m[key]]
+    notes = lambda ns: None if ns is None else [dict(n) for n in ns]
+    each("users", dict)
+    each("tags", dict)
+    each("recordings", lambda r: {**r, "duration": _fl(r["duration"]), "channels": int(float(r["channels"])),
+                                  "samplerate": int(float(r["samplerate"])), "time_expansion": _fl(r.get("time_expansion")),
+                                  "latitude": _fl(r.get("latitude")), "longitude": _fl(r.get("longitude")),
+                                  "features": _undict(r.get("features")), "notes": notes(r.get("notes"))})
+    each("clips", lambda c: {**c, "start_time": _fl(c["start_time"]), "end_time": _fl(c["end_time"]),
+                             "features": _undict(c.get("features"))})
+    each("sound_events", lambda s: {**s, "geometry": None if s.get("geometry") is None else json.loads(s["geometry"]),
+                                    "features": _undict(s.get("features"))})
+    each("sequences", lambda s: {**s, "features": _undict(s.get("features"))})
+    each("sound_event_annotations", lambda a: {**a, "notes": notes(a.get("notes"))})
+    each("sequence_annotations", lambda a: {**a, "notes": notes(a.get("notes"))})
+    each("clip_annotations", lambda a: {**a, "notes": notes(a.get("notes"))})
+    stags = lambda ts: None if ts is None else [[t["id"], float(t["score"])] for t in ts]
+    each("sound_event_predictions", lambda p: {**p, "score": _fl(p["score"]), "tags": stags(p.get("tags"))})
+    each("sequence_predictions", lambda p: {**p, "score": _fl(p["score"]), "tags": stags(p.get("tags"))})
+    each("clip_predictions", lambda p: {**p, "tags": stags(p.get("tags")), "features": _undict(p.get("features"))})
+    each("clip_evaluations", lambda e: {**e, "metrics": _undict(e.get("metrics")), "score": _fl(e.get("score"))})
+    each("matches", lambda x: {**x, "affinity": _fl(x["affinity"]), "score": _fl(x.get("score")),
+                               "metrics": _undict(x.get("metrics"))})
+    each("tasks", lambda t: {**t, "status_badges": None if t.get("status_badges") is None
+                             else [dict(b) for b in t["status_badges"]]})
+    for k in ("project_tags", "evaluation_tags", "name", "description", "instructions", "version", "evaluation_task"):
+        out[k] = g(k)
+    out["metrics"] = _undict(g("metrics"))
+    out["score"] = _fl(g("score"))
+    return _strip_nulls(out)
+
+
+def aoef_file(data):
+    return {"version": "1.1.0", "created_on": "2024-01-01T00:00:00", "data": data}
